@@ -254,7 +254,7 @@ Outcomes(S, op, ord) ==
 
 \* attribute entries of the bulk formats that are not dicts (key/value pairs, None): not documented; only
 \* the invariants of every reachable state are required afterwards
-Unspecified(S, op) == op.name = "add_edges_from" /\ (op.b2 \/ op.b4)
+Unspecified(S, op) == op.name \in {"add_edges_from", "add_nodes_from"} /\ (op.b2 \/ op.b4)
 
 AddOps == {"add_edge", "add_edges_from", "add_node_to_edge"}
 AddsPreserve(S, T) ==
